@@ -124,3 +124,10 @@ Definition utils_ci (Phi PhiInv pow15 : Q -> Q) (yshape : list nat)
            (theta : list (list rate)) (theta_hat : option (list rate)) (alpha : Q) (m : method)
   : res (list nat * list rate) :=
   bootstrap_ci Phi PhiInv pow15 yshape theta theta_hat (AScalar alpha) m.
+
+(* the same with the dtype of the metric values: bootstrap_metric allocates res with dtype = metric(self).dtype and
+   theta_hat = metric(self), so both have the metric's dtype *)
+Definition utils_ci_dt (Phi PhiInv pow15 : Q -> Q) (dt : dtype) (yshape : list nat)
+           (theta : list (list rate)) (theta_hat : option (list rate)) (alpha : Q) (m : method)
+  : res (list nat * list rate) :=
+  bootstrap_ci_dt Phi PhiInv pow15 dt yshape theta theta_hat (AScalar alpha) m.
